@@ -301,6 +301,9 @@ func (e *Exec) callFunction(st *State, fr *Frame, fn *ssa.Function, args []Value
 	}
 	pre := st.Clone()
 	outs := e.runBlock(st, nf, fn.Blocks[0], nil, 0)
+	if os.Getenv("GOVC_DEBUG") == "7" && len(outs) > 6 && e.specMode == 0 {
+		fmt.Fprintf(os.Stderr, "OUTCOMES %d from %s\n", len(outs), fnName(fn))
+	}
 	return e.tryMerge(pre, outs, fn)
 }
 
@@ -508,6 +511,20 @@ func (e *Exec) primitive(st *State, fr *Frame, fn *ssa.Function, args []Value, p
 	case "prim_sameslice":
 		a, b := args[0].(*SliceV), args[1].(*SliceV)
 		return one(st, And(Eq(a.Len, b.Len), Or(Eq(a.Len, BVConst(0, 64)), And(Eq(a.Arr, b.Arr), Eq(a.Off, b.Off))))), true
+	case "prim_freshstream": // prim_freshstream(w): nothing written to w yet, and the transport accepts everything
+		wref := streamRef(args[0])
+		fam := e.wrFamily(args[0])
+		e.ghSet(st, fam+".len", BV(64), wref, BVConst(0, 64))
+		e.ghSet(st, fam+".limit", BV(64), wref, BVConst(1<<62, 64))
+		return one(st), true
+	case "prim_pipe": // prim_pipe(r, w, from): what was written to w from position `from` on is exactly the unread input of r
+		rref, wref := streamRef(args[0]), streamRef(args[1])
+		from := SignExt(args[2].(*Term), 64)
+		w := e.wrF(st, e.wrFamily(args[1]), wref)
+		e.ghSet(st, "rd.data", byteArr, rref, w.data)
+		e.ghSet(st, "rd.pos", BV(64), rref, from)
+		e.ghSet(st, "rd.len", BV(64), rref, w.n)
+		return one(st), true
 	case "prim_disjoint": // the two slices do not share memory (different backing arrays, or one of them is empty)
 		a, b := args[0].(*SliceV), args[1].(*SliceV)
 		return one(st, Or(Eq(a.Cap, BVConst(0, 64)), Eq(b.Cap, BVConst(0, 64)), Not(Eq(a.Arr, b.Arr)))), true
